@@ -178,6 +178,15 @@ class ParNoSubDep(param.Parameterized):
         self.log.append(("on_bounds", self.param.a.bounds))
 
 
+class ParSlots(ParNoSubDep):
+    """a subclass that keeps an ordinary attribute in a slot of its own"""
+    __slots__ = ["tag"]
+
+    def __init__(self, **params):
+        super().__init__(**params)
+        self.tag = ["kept in a slot"]
+
+
 def user_cb(*events):
     """module-level watcher callback (picklable)"""
     for e in events:
